@@ -114,6 +114,20 @@ def run(ctx, out):
             if not b.decode("cp437").endswith("\0"):
                 add(f"enc.en dflt str {C.hexs(b.decode('cp437').encode())}", "ok " + C.hexs(b))
             out.nontrivial.add(("cp437", pos, x))
+    # every PAIR of bytes (65,536), and byte strings that happen to be well-formed UTF-8 (2-, 3-, 4-byte sequences, mixed with ASCII):
+    # CP437 text is CP437 text whatever else its bytes could be read as
+    def cp(b):
+        text = b.decode("cp437").rstrip("\0")
+        add(f"enc.de dflt str {C.hexs(b)}", f"ok s:{C.hexs(text.encode())} rem=-")
+        if not b.decode("cp437").endswith("\0"):
+            add(f"enc.en dflt str {C.hexs(b.decode('cp437').encode())}", "ok " + C.hexs(b))
+    for x in range(256):
+        for y in range(256):
+            cp(bytes([x, y]))
+    for _ in range(3000 if thorough else 400):
+        u = "".join(rng.choice(["a", "Z", " ", "ä", "ö", "ß", "é", "€", "中", "😀", "\u0080", "\u07ff", "\u0800", "\uffff", "\U0010ffff", chr(rng.randint(0x80, 0x2fff))]) for _ in range(rng.randint(1, 6)))
+        cp(u.encode("utf-8"))
+        out.nontrivial.add(("cp437-utf8-shaped", u))
     add("enc.en dflt str e282ac", "panic")     # the euro sign is not in the repertoire: unwrap() on the encoder side
     # ---- hex strings up to 64 bytes
     for ln in list(range(0, 20)) + [31, 32, 33, 63, 64]:
@@ -152,6 +166,6 @@ def run(ctx, out):
             out.oracle_failures.append({"op": o, "observed": r, "expected": "ok … | err …", "key": o, "what": "decoder panics"})
     out.exhaustive = True
     out.rule = ("u8/u16 and all 65536 tags exhaustively (encode, decode with trailer, BCD); u32/u64/usize at every decimal digit-count and byte boundary plus random; "
-                "BCD digit strings of every length 0..11 with digit/F/A nibbles and the 120 values around each type's maximum; all 256 CP437 bytes at 3 positions; hex up to 64 bytes; receipt numbers; "
+                "BCD digit strings of every length 0..11 with digit/F/A nibbles and the 120 values around each type's maximum; all 256 CP437 bytes at 3 positions, all 65 536 byte pairs and byte strings that are well-formed UTF-8 as CP437 text; hex up to 64 bytes; receipt numbers; "
                 "each compared implementation = model = independent python reference. non-trivial = distinct (type, value) / byte strings")
     out.samples = [ops[5], ops[400001], {"op": ops[-20], "impl": impl[-20], "model": model[-20]}]
